@@ -228,15 +228,24 @@ def build_race_harness():
     return rc == 0, log
 
 
-RACE_RE = re.compile(r"WARNING: DATA RACE\n(.*?)(?:\n==================|\Z)", re.S)
+RACE_RE = re.compile(r"WARNING: DATA RACE\n(.*?)\n==================", re.S)
+FRAME_RE = re.compile(r"^\s+github\.com/elk-language/elk/(\S+?)\(\)\s*$", re.M)
 
 
 def race_reports(stderr):
+    """canonical key of a race report: the two racing accesses (top elk frame of each stack, with the caller for
+    context), order-independent"""
     out = []
     for m in RACE_RE.finditer(stderr):
-        frames = [l.strip() for l in m.group(1).splitlines() if "elk-language/elk/" in l and "()" in l or l.strip().startswith("github.com/elk-language")]
-        top = [f.split("(")[0].replace("github.com/elk-language/elk/", "") for f in frames][:4]
-        out.append(" < ".join(top) or m.group(1)[:200])
+        body = m.group(1)
+        parts = re.split(r"\n(?=Previous (?:read|write) at )", body, maxsplit=1)
+        tops = []
+        for part in parts[:2]:
+            part = part.split("\nGoroutine ")[0]
+            fr = [f.split("/")[-1] for f in FRAME_RE.findall(part)]
+            fr = [re.sub(r"\[.*", "", f) for f in fr]
+            tops.append(" <- ".join(fr[:2]) if fr else "?")
+        out.append(" | ".join(sorted(tops)))
     return out
 
 
@@ -291,7 +300,9 @@ def run(ctx):
         recs, stderr = evaluate(rprogs, rcfgs, binary=vlib.ELKH + "-race", workers=3)
         reps = race_reports(stderr)
         ctx.stat("race-runs", len(rprogs) * len(rcfgs))
-        for r in sorted(set(reps))[:4]:
-            ctx.violation("data-race", {"race": r}, f"the Go race detector reported a data race while checking generated programs: {r}")
-        ctx.obligation(f"no data race reported by `go build -race` over {len(rprogs) * len(rcfgs)} checker runs", not reps, "race-detector",
-                       "; ".join(sorted(set(reps))[:3]))
+        unknown = 0
+        for r in sorted(set(reps))[:8]:
+            if ctx.violation("data-race", {"race": r}, f"the Go race detector reported a data race while checking generated programs: {r}"):
+                unknown += 1
+        ctx.obligation(f"no data race (other than the listed known findings) reported by `go build -race` over {len(rprogs) * len(rcfgs)} checker runs",
+                       unknown == 0, "race-detector", "; ".join(sorted(set(reps))[:3]))
